@@ -262,6 +262,16 @@ pub fn run(ctx: &Ctx) {
         giants.iter().map(|w| Giant { words: *w, seed: *w }).collect::<Vec<_>>()
     }, check_giant);
 
+    ctx.exhaustive("bulk_request_then_more", "request sizes [T + j, 3, 0, 1] for T in {64, 256, 1024, 4096, 65536} and j = 0..=9 (every residue of an unroll factor up to 8 above a bulk threshold), the words after the bulk request included", || {
+        let mut v = Vec::new();
+        for t in [64u32, 256, 1024, 4096, 65536] {
+            for j in 0..=9u32 {
+                v.push(Split { key: Hex(expand_bytes((t + j) as u64 ^ 0xb01c, 16)), iv: Hex(expand_bytes((t + j) as u64 ^ 0xb01d, 16)), requests: vec![t + j, 3, 0, 1] });
+            }
+        }
+        v
+    }, check_split);
+
     ctx.exhaustive("long_request_then_more", "request sizes [n, m, 1] for every n in 0..=70 and m in {0, 1, 5, 16, 17} (a request that ends inside a 16-word block of the LFSR, followed by further requests) x 2 (key, iv) pairs", || {
         let mut v = Vec::new();
         for draw in 0..2u64 {
